@@ -75,7 +75,7 @@ def _families():
     return c08_strata.FAMILIES
 
 
-E2E = {"quick": (72, 12), "thorough": (1500, 50)}   # (modules, modules per spec)
+E2E = {"quick": (80, 10), "thorough": (1500, 50)}   # (modules, modules per spec)
 
 
 def cases(tier, seed):
